@@ -228,7 +228,53 @@ T5 = {
     "C20-r5-connection-cap-leaks-on-empty-connections": (
         ">=128 connections opened and closed without a byte", False, "C20 socket: bursts of 130 / 300 silent connections", ["C20"]),
 }
-RETIRED = {"C10-r4-stop-event-at-mth-start"}
+# round 6
+T6 = {
+    "C01-r6-redis-bg-put-cancel-loses-message": (
+        "Redis consumer with max_unacked_messages=N, >= N+1 messages waiting, finish() while the poller is blocked on the full local queue", True, None, ["C01"]),
+    "C02-r6-subdependency-noaction-as-value": (
+        "eager response given by a dependency of a dependency", False,
+        "scripted actor shape dep2 (provider one level down) in gen / scenario; C16 dependency-eager nested variant", ["C02", "C16"]),
+    "C03-r6-health-stop-before-graceful-finish": (
+        "health server running, a client connection still open when the worker stops, a message still taken", False,
+        "C20 socket: idle client connection at stop + worker-died verdict. That exposed the genuine defect D32 on the unchanged tree "
+        "(run() raised TimeoutError), repaired in /repo c28d5ba; with the repair the change no longer loses messages (its demo passes) - "
+        "retired for C03; what remains of it (port closed during the graceful shutdown) is caught by C20", ["C03", "C20"]),
+    "C04-r6-amqp-requeue-publish-before-ack": ("RabbitMQ, zero back-off retry (third independent re-invention of this change)", True, None, ["C04"]),
+    "C05-r6-mem-delayed-scan-skipped-when-normal-nonempty": (
+        "in-memory, topic-filtered consumer, a normal message of a foreign topic parked in the queue, a due delayed message", True, None, ["C05"]),
+    "C06-r6-redis-wait-timestamp-naive-utc": (
+        "Redis and a host time zone other than UTC", False,
+        "host time zone dimension: vclock.run(tz=...) (TZ + tzset, naive datetimes are host-local); C05, C06, C12 and gen.worker_case draw "
+        "EST5 / IST-5:30 / NZT-13", ["C06"]),
+    "C07-r6-serializer-exclude-none": ("top-level pydantic model argument with a None field", True, None, ["C07"]),
+    "C08-r6-pydantic-output-exclude-none": (
+        "PydanticConverter, returned model with a None field", False, "C08 outputs: Report / list[Report] return values with None fields", ["C08"]),
+    "C09-r6-sync-pool-shutdown-nowait": (
+        "blocking sync actor whose execution timeout expires mid-run, more messages waiting", False,
+        "new C09 sub-check sync-timeout (real blocking threads, thread_time)", ["C09"]),
+    "C10-r6-task-callback-returns-before-count-on-failure": (
+        "messages_limit and an execution that fails outside the actor (result asked for, worker connection without results broker)", False,
+        "C10: worker connection without bucket brokers + result-storing jobs", ["C10"]),
+    "C11-r6-worker-consumers-filter-on-all-topics": ("worker serving >=2 queues, job named like an actor of the other queue", True, None, ["C11"]),
+    "C12-r6-ttl-zero-falsy": ("Parameters.ttl == timedelta(0)", False, "C12: ttl 0, 1 us, 0.5 s", ["C12"]),
+    "C13-r6-runner-rejects-after-process-failure": ("store failure after a requeue whose message was already consumed again", True, None, ["C13"]),
+    "C14-r6-reporting-guard-excludes-result-store": (
+        "forced cancellation during a slow result store after a requeue, the requeued message already held by another worker", False,
+        "new C14 sub-checks workers-stop-* (and: the existing workers-* turned out to be vacuous - see DESIGN 12)", ["C14", "C13"]),
+    "C15-r6-redis-watcherror-retry-skips-contended": (
+        "Redis, an enqueue landing between the consumer's WATCH/LRANGE and its EXEC", False,
+        "C15 racing-producer mode; the Redis model now raises redis.exceptions.WatchError (it raised a class of its own, which the "
+        "changed code's `except WatchError` did not match)", ["C15"]),
+    "C16-r6-pending-store-committed-by-refused-retry": ("set_* - refused retry - set_* - eager response", True, None, ["C16"]),
+    "C17-r6-subscriber-kwargs-memoised": ("one operation called with and without its optional arguments", True, None, ["C17"]),
+    "C18-r6-resolvers-cached-across-override": ("override with a different sub-dependency set after the first resolution", True, None, ["C18"]),
+    "C19-r6-job-overdue-le": ("Job.is_overdue exactly at timestamp + ttl", True, None, ["C19"]),
+    "C20-r6-health-stop-in-finally-before-finish": (
+        "probe during the graceful shutdown while an actor is still running", False,
+        "C20 slow_stop: a refused connection while run() has not returned is a closed port", ["C20"]),
+}
+RETIRED = {"C10-r4-stop-event-at-mth-start", "C03-r6-health-stop-before-graceful-finish"}
 
 
 def main() -> None:
@@ -237,6 +283,7 @@ def main() -> None:
     rows += [(n, 3, needs, first, st, checks) for n, (needs, first, st, checks) in T3.items()]
     rows += [(n, 4, needs, first, st, checks) for n, (needs, first, st, checks) in T4.items()]
     rows += [(n, 5, needs, first, st, checks) for n, (needs, first, st, checks) in T5.items()]
+    rows += [(n, 6, needs, first, st, checks) for n, (needs, first, st, checks) in T6.items()]
     for name, rnd, needs, first, strengthened, checks in rows:
         d = ROOT / "seeded" / name
         pid = name[:3]
@@ -255,7 +302,8 @@ def main() -> None:
             meta["strengthened"] = strengthened
         if name in RETIRED:
             meta["retired"] = True
-            meta["result"] = "no longer breaks the property at /repo HEAD (see 'strengthened'); before the repair: caught by C10 quick (execution-cut)"
+            meta["result"] = ("no longer breaks its property at /repo HEAD (see 'strengthened'); before the repair it was caught by the "
+                              "strengthened check")
         (d / "meta.json").write_text(json.dumps(meta, indent=1) + "\n")
         print(name, meta["result"][:90], meta["tests_pass_with_change"], meta["demo_fails_with_change"], meta["demo_passes_without"])
 
